@@ -146,12 +146,8 @@ def run_many(harnesses, jobs=6, use_cache=True):
         for h in todo:
             args += ["--harness", h]
         t0 = time.time()
-        try:
-            p = subprocess.run(args, cwd=HARNESS, env=_env(), capture_output=True, text=True, timeout=KANI_TIMEOUT)
-            out = p.stdout + "\n" + p.stderr
-        except subprocess.TimeoutExpired as ex:
-            out = (ex.stdout or b"").decode(errors="replace") if isinstance(ex.stdout, bytes) else (ex.stdout or "")
-            out += "\nTIMEOUT"
+        o_, e_, to_ = _run_group(args, KANI_TIMEOUT)
+        out = o_ + "\n" + e_ + ("\nTIMEOUT" if to_ else "")
         got = _parse(out, todo)
         if "error: could not compile" in out or "error[E" in out:
             for h in todo:
@@ -176,15 +172,37 @@ def run_many(harnesses, jobs=6, use_cache=True):
     return res
 
 
+def _run_group(args, timeout):
+    """Run in its own process group with output to files; on timeout the whole group (cargo, kani-driver, cbmc)
+    is killed so that nothing keeps running after the check has returned."""
+    import tempfile
+    os.makedirs(os.path.join(BUILD, "run"), exist_ok=True)
+    fo = tempfile.TemporaryFile("w+", dir=os.path.join(BUILD, "run"))
+    fe = tempfile.TemporaryFile("w+", dir=os.path.join(BUILD, "run"))
+    pr = subprocess.Popen(args, cwd=HARNESS, env=_env(), stdout=fo, stderr=fe, text=True, start_new_session=True)
+    timed_out = False
+    try:
+        pr.wait(timeout=timeout)
+    except subprocess.TimeoutExpired:
+        timed_out = True
+        try:
+            os.killpg(pr.pid, 9)
+        except Exception:
+            pr.kill()
+        pr.wait()
+    fo.seek(0); fe.seek(0)
+    o, e = fo.read(), fe.read()
+    fo.close(); fe.close()
+    return o, e, timed_out
+
+
 def counterexample(h):
     """Ask Kani for a concrete counterexample (bytes of every kani::any() in order)."""
     args = ["cargo", "kani", "-Z", "stubbing", "-Z", "function-contracts", "-Z", "concrete-playback",
             "--concrete-playback=print", "--harness", h]
-    try:
-        p = subprocess.run(args, cwd=HARNESS, env=_env(), capture_output=True, text=True, timeout=KANI_TIMEOUT)
-    except subprocess.TimeoutExpired:
+    out, _e, to_ = _run_group(args, KANI_TIMEOUT)
+    if to_:
         return None
-    out = p.stdout
     m = re.search(r'let concrete_vals: Vec<Vec<u8>> = vec!\[(.*?)\];', out, re.S)
     if not m:
         return None
